@@ -1287,7 +1287,10 @@ def run(ctx: Ctx) -> int:
             fjobs.append({"fmt": fmt, "pt": bool((idx + fi) % 2), "kind": kind, "inherit": kind in ("method", "attribute"),
                           "docA": docA, "docB": "Docstring of B, %s." % ("inherited" if kind in ("method", "attribute") else "own"),
                           "faults": None, "order": order, "family": fam,
-                          "wfield": fam == "ivarbody" and kind == "class" and fmt in W_FIELD and not (fmt in ("google", "numpy") and idx % 2)})
+                          # (a directive in the fuzzed field body - default-role, role, substitution definitions - legitimately changes
+                          # how the REST OF THE SAME docstring, the sibling field included, is read: no baseline to compare with then)
+                          "wfield": fam == "ivarbody" and kind == "class" and fmt in W_FIELD and not (fmt in ("google", "numpy") and idx % 2)
+                                    and ".. " not in text and "::" not in text})
     fres, cut = budgeted_map(_fuzz_job, fjobs, nproc, lambda t: t.get("hung") or any(e["r"] == "timeout" for e in t.get("ev", [])))
     ctx.extra["fuzz_slow_not_hung"] = second_opinion(_fuzz_job, fjobs[:len(fres)], fres, nproc, hung_tr)
     ctx.extra["fuzz_workers_killed"] = sum(1 for t in fres if t.get("hung"))
